@@ -79,7 +79,7 @@ def mtype(w, ty):
     return w.t(ty)
 
 
-def run_layout(prog, seqs, kind, pack=False):
+def run_layout(prog, seqs, kind, pack=False, mtype_fn=None, after=None):
     """interpret tagspec for each sequence; returns {seq index: result}"""
     fn = prog.require_func('tagspec', 'decl.c')
     am = prog.require_func('addmember', 'decl.c')
@@ -100,7 +100,7 @@ def run_layout(prog, seqs, kind, pack=False):
                 b = a[1]
                 ty, wd, named, al = seq[st['m']]
                 st['m'] += 1
-                mt = StructVal({('type',): mtype(w, ty), ('qual',): 0, ('expr',): None})
+                mt = StructVal({('type',): (mtype_fn or mtype)(w, ty), ('qual',): 0, ('expr',): None})
                 name = Ptr(i2.mkstr(list(('m%d' % st['m']).encode()), 'm'), (0,)) if named else None
                 i2.call(am, [b, mt, name, al or 0, (2 ** 64 - 1) if wd is None else wd])
                 if st['m'] >= len(seq):
@@ -128,6 +128,8 @@ def run_layout(prog, seqs, kind, pack=False):
                 nm = it.load(m.obj, ('name',))
                 mem.append((nm is not None, off * 8 + bb, S * 8 - bb - ba))
                 m = it.load(m.obj, ('next',))
+            if after is not None:
+                return size, align, mem, after(it, w, t)
             return size, align, mem
         runs = explore(prog, runner, {}, max_runs=2, on_unsupported='keep')
         run = runs[0]
@@ -236,35 +238,24 @@ def rule_align_pack(chk, prog, tier):
         ('struct', [('int', None, True, 8), ('char', None, True, 0), ('short', None, True, 4)], False, (16, 8, [0, 32, 64])),
         ('struct', [('char', None, True, 0), ('long', None, True, 32)], False, (64, 32, [0, 256])),
         ('struct', [('char', None, True, 0), ('int', None, True, 0), ('short', None, True, 0), ('long', None, True, 0)], True, (15, 1, [0, 8, 40, 56])),
-        ('struct', [('char', None, True, 0), ('int', None, True, 4), ('char', None, True, 0)], True, (9, 4, [0, 32, 64])),
+        # _Alignas inside a packed struct is honoured, and the size is a multiple of the resulting alignment (values from gcc 12 and clang 14)
+        ('struct', [('char', None, True, 0), ('int', None, True, 4), ('char', None, True, 0)], True, (12, 4, [0, 32, 64])),
+        ('struct', [('short', None, True, 0), ('char', None, True, 8)], True, (16, 8, [0, 64])),
+        ('struct', [('char', None, True, 0), ('long', None, True, 0), ('short', None, True, 0)], True, (11, 1, [0, 8, 72])),
+        ('struct', [('long', None, True, 16), ('char', None, True, 0)], True, (16, 16, [0, 64])),
     ]
-    fn = prog.require_func('addmember', 'decl.c')
     for kind, seq, pack, want in cases:
-        def runner(it):
-            w = World(prog, it=it, target='x86_64-sysv')
-            t = w.mkstruct(size=0, align=0); t.obj.f[('flexible',)] = 0
-            b = Obj('builder', 'local')
-            b.f[('type',)] = t; b.f[('last',)] = Ptr(t.obj, ('u', 'structunion', 'members')); b.f[('bits',)] = 0; b.f[('pack',)] = int(pack)
-            it.models.update({'xmalloc': lambda i2, a, e: Ptr(Obj('m', 'heap'), ()), 'error': lambda i2, a, e: (_ for _ in ()).throw(Terminal('error', cmodel.fmt_of(i2, a, 1)))})
-            offs = []
-            for mi, (ty, wd, named, al) in enumerate(seq):
-                mt = StructVal({('type',): w.t(ty), ('qual',): 0, ('expr',): None})
-                it.call(fn, [Ptr(b, ()), mt, Ptr(it.mkstr(list(b'm%d' % mi), 'm'), (0,)), al, 2 ** 64 - 1])
-            m = t.obj.f[('u', 'structunion', 'members')]
-            while m is not None:
-                offs.append(m.obj.f[('offset',)] * 8); m = m.obj.f.get(('next',))
-            size = t.obj.f[('size',)]; align = t.obj.f[('align',)]
-            if not pack: size = (size + align - 1) // align * align      # tagspec's final rounding
-            return size, align, offs
-        runs = explore(prog, runner, {}, max_runs=2, on_unsupported='keep')
-        run = runs[0]
+        # the real tagspec() (final rounding included) with the real addmember()
+        res = run_layout(prog, [(0, tuple(seq))], kind, pack=pack)[0]
         key = 'layout-attr:%s%s { %s }' % ('packed ' if pack else '', kind, fmt(seq))
-        if pack and any(al for _, _, _, al in seq):
-            # gcc honours _Alignas inside a packed struct; cproc rounds the final size differently: judged on offsets and alignment only
-            ok = run.outcome == 'return' and run.value[1:] == want[1:]
-        else:
-            ok = run.outcome == 'return' and run.value == want
-        r.instance(ok, key, 'decl.c:%s' % fn.get('line'), 'expected (size, align, bit offsets) %s, got %s' % (want, run.value if run.outcome == 'return' else run.outcome + ' ' + str(run.detail)))
+        if res[0] != 'return':
+            r.instance(False, key, 'decl.c:tagspec', 'valid declaration rejected: %s %s' % res); continue
+        size, align, mem = res[1]
+        got = (size, align, [bp for named, bp, wd in mem])
+        ref = layout(seq, kind == 'union', pack)
+        if (ref[0], ref[1], [x[0] for x in ref[2] if x]) != want:
+            raise AnalysisBroken('reference layout %s disagrees with the platform values %s for %s' % (ref, want, key))
+        r.instance(got == want, key, 'decl.c:tagspec', 'expected (size, align, bit offsets) %s as gcc and clang lay it out, got %s' % (want, got))
     r.exhaustive = False
 
 
